@@ -109,8 +109,12 @@ func runM(pid string, cs []mCase, capMs int) ([]gCase, [][]Failure, map[string]i
 		switch {
 		case r.Died != "":
 			cls = "died"
-			g.NoCoq = true
 			g.Obs = "ODied"
+			if len(g.Bytes) <= 700 && g.Kind != "reuse" && g.Kind != "enc" {
+				g.Huge = true // judged by the model: only a LIST count beyond the bytes left explains a death
+			} else {
+				g.NoCoq = true
+			}
 			add("decode/process-death/"+strings.SplitN(strings.TrimPrefix(r.Died, "worker exited: "), " [", 2)[0], "decoding killed the process: "+r.Died)
 		case strings.HasPrefix(r.Obs, "OPanic"):
 			cls = "panic"
@@ -119,6 +123,9 @@ func runM(pid string, cs []mCase, capMs int) ([]gCase, [][]Failure, map[string]i
 			cls = "err"
 		}
 		if pid == "C05" && r.Died == "" && r.Alloc > 256*uint64(len(g.Bytes))+(1<<20) {
+			if !g.NoCoq && g.Kind != "reuse" && g.Kind != "enc" {
+				g.Huge = true
+			}
 			add("decode/over-allocation", fmt.Sprintf("decoding %d bytes allocated %d bytes (> 256 x input + 1 MiB)", len(g.Bytes), r.Alloc))
 		}
 		if pid == "C05" && r.Died == "" && r.Us > slowLimitUs(len(g.Bytes)) && stillSlow(reqs[i]) {
